@@ -99,17 +99,14 @@ Definition check_case (c : case) : N :=
       let three := match opt with [51; a; b] => is_digit a && is_digit b | _ => false end in
       let spec := ((impl =? 0)%Z || code_ok impl)
                   && (if three then (impl =? digits_val 0%Z opt)%Z else true) in
-      let region := if code_overflows opt then Some 4 else None in
-      verdict same spec region (negb (impl =? 0)%Z)
+      verdict same spec None (negb (impl =? 0)%Z)
   | CServe cands q impl hits =>
       let m := fst (handle q cands []) in
       let same := response_same (any_adjacent (somes cands)) impl m && Nat.eqb hits (upstream_calls m) in
       let spec := response_equiv impl (ref_response q cands)
                   && Nat.eqb hits (match impl with RProxy _ => 1 | _ => 0 end)
                   && match impl with RRedirect c _ => code_ok c | RBadCode _ => false | _ => true end in
-      let region := if region_bad_code cands then Some 4
-                    else if region_no_xfp q cands then Some 3
-                    else if region_last_skipped q cands then Some 2
+      let region := if region_no_xfp q cands then Some 3
                     else if any_adjacent (somes cands) then Some 1 else None in
       let nontriv := match m with RRedirect _ _ => true | _ => Nat.ltb 1 (length cands) end in
       verdict same spec region nontriv
